@@ -1244,7 +1244,7 @@ class Machine:
             env[(fr, I.res)] = st.load("$eh", 0) or (Ptr("exc", 0), 1)
             return
         if op == "resume":
-            return ("ret", ("$resume",))
+            return ("ret", Throw(None, 1))  # the in-flight exception continues to propagate
         if op == "freeze":
             ty, v = self.typed(st, fr, t[7:])
             env[(fr, I.res)] = v
